@@ -24,7 +24,7 @@ EXTRA = {
     # egress
     'R10.1': ['C20'], 'R10.3': ['C18'], 'R13.6': ['C09'], 'R13.3': ['C02'], 'R13.1': ['C02', 'C18'],
     # 6LoWPAN
-    'R20.1': ['C12', 'C10'], 'R20.2': ['C03'], 'R20.3': ['C03'], 'R06.1': ['C10', 'C03'], 'R06.1c': ['C10', 'C03'], 'R06.4': ['C10', 'C09'],
+    'R20.1': ['C12', 'C10', 'C09'], 'R20.2': ['C03'], 'R20.3': ['C03'], 'R06.1': ['C10', 'C03'], 'R06.1c': ['C10', 'C03'], 'R06.4': ['C10', 'C09'],
     'R03.4': ['C07'], 'R03.5': ['C11'], 'R03.7': ['C10'],
     # DHCP
     'R18.3': ['C10'], 'R18.4': ['C13', 'C10'], 'R18.5': ['C13'], 'R18.7': ['C13'],
